@@ -441,16 +441,15 @@ class Model(core.BfsModel):
             circuits.append((v["state"], c.ctype, v["goal_hops"], v["hops"], tuple(v["exit_flags"]), v["exit"], v["first"],
                              c.unverified_hop is not None, c.required_exit is not None and w.by_key.get(
                                  c.required_exit.public_key.key_to_bin()),
-                             round(now - c.creation_time, 3), round(now - c.last_activity, 3),
+                             round(now - c.last_activity, 3),
                              tc.request_cache.has(RetryRequestCache, c.circuit_id)))
         remote = []
         for name in ("N", *ROLES):
             o = w.ov[name]
             remote.append((name,
-                           tuple(sorted((round(now - e.creation_time, 3), round(now - e.last_activity, 3), e.enabled,
-                                         w.node_of(e.hop)) for e in o.exit_sockets.values())),
-                           tuple(sorted((round(now - r.creation_time, 3), round(now - r.last_activity, 3), r.direction,
-                                         w.node_of(r.hop)) for r in o.relay_from_to.values())),
+                           tuple(sorted((round(now - e.last_activity, 3), w.node_of(e.hop)) for e in o.exit_sockets.values())),
+                           tuple(sorted((round(now - r.last_activity, 3), r.direction, w.node_of(r.hop))
+                                        for r in o.relay_from_to.values())),
                            tuple(sorted((w.by_key.get(p.public_key.key_to_bin(), "?"), tuple(sorted(f)))
                                         for p, f in o.candidates.items())),
                            len(o.request_cache._identifiers)))  # noqa: SLF001
@@ -458,8 +457,7 @@ class Model(core.BfsModel):
         queue = tuple((labels.get(p[:22], "other"), tuple(a)) for a, p in tep.send_queue)
         qsum = (len(queue), tuple(sorted(set(queue))))
         return (settings, tep.tunnel_community is tc, tep.tunnel_community is None, tep.hops, qsum, tuple(circuits),
-                tuple(remote), timers, len(w.inflight), w.ref.anon_asked,
-                tuple(sorted(t.owner.name for t in w.loop.transports if not t.closed and t.owner)))
+                tuple(remote), timers, len(w.inflight), w.ref.anon_asked)
 
     # -- oracle -----------------------------------------------------------------------------------------
     def _check(self, w: C07World, hist, ev, obs) -> list:  # noqa: ANN001
